@@ -160,6 +160,47 @@ static void transition(const Cfg &cfg, const std::vector<Call> &A, const std::ve
     printf("KEY %s\t%s\n", cs_.c_str(), after.c_str());
 }
 
+
+// ---------------------------------------------------------------------------------------------
+// "deep" part: ALL call histories up to a depth over a second alphabet of LARGE calls, explored
+// WITHOUT state merging (so state that the canonical key does not know about -- a cache added to
+// the object, a function-local static -- cannot hide).  Each history is replayed on a fresh object
+// and its LAST call is compared with a fresh object's result for the same arguments (shorter
+// histories are enumerated too, so every call of every history is checked once).
+static std::vector<Call> big_calls()
+{
+    const u64 K = 1ULL << 12;
+    return {
+        {M_EXT, K, 2 * K, 1, 3, 1}, {M_EXT, 2 * K, 2 * K, 1, 3, 1}, {M_EXT, K, 4 * K, 1, 2, 1}, {M_EXT, 2 * K, 4 * K, 2, 3, 2},
+        {M_NTT, 2 * K, 0, 1, 3, 1}, {M_INTT, K, 0, 2, 2, 1},
+    };
+}
+static std::vector<u64> big_out(NTT_Goldilocks &o, const Call &c) { return do_call(o, c); }
+static void deep_history(const Cfg &cfg, const std::vector<Call> &A, const std::vector<int> &hist)
+{
+    omp_set_num_threads(cfg.base_omp);
+    std::string cs_ = fmt("deep=1 D=%llu nthreads=%u hist=%s", (unsigned long long)cfg.D, cfg.nthreads, histstr(A, hist).c_str());
+    std::vector<u64> got, fresh;
+    {
+        NTT_Goldilocks o(cfg.D, cfg.nthreads);
+        for (size_t i = 0; i + 1 < hist.size(); i++) do_call(o, A[hist[i]]);
+        got = big_out(o, A[hist.back()]);
+    }
+    {
+        NTT_Goldilocks f(cfg.D, cfg.nthreads);
+        fresh = big_out(f, A[hist.back()]);
+    }
+    rep().stat("transitions");
+    rep().stat("evaluations");
+    rep().stat("deep_histories");
+    if (got != fresh)
+    {
+        size_t i = 0;
+        while (i < got.size() && got[i] == fresh[i]) i++;
+        rep().viol(fmt("C19.differs-from-fresh.deep.%s", mname[A[hist.back()].mode]), cs_, fmt("last call %s after %zu earlier calls: element %zu = %s but a fresh object gives %s", callstr(A[hist.back()]).c_str(), hist.size() - 1, i, hex(got[i]).c_str(), hex(fresh[i]).c_str()));
+    }
+}
+
 int main(int argc, char **argv)
 {
     Args args = parse_args(argc, argv);
@@ -169,6 +210,18 @@ int main(int argc, char **argv)
     if (!args.one.empty())
     {
         auto m = parse_case(args.one);
+        if (cu(m, "deep", 0))
+        {
+            Cfg cfg{cu(m, "D"), (unsigned)cu(m, "nthreads"), 4};
+            std::vector<Call> A = big_calls();
+            std::vector<int> hist;
+            for (u64 x : culist(m, "hist")) hist.push_back((int)x);
+            ChildResult r = run_child([&](FILE *f) { dup2(fileno(f), 1); rep().reset(); deep_history(cfg, A, hist); rep().flush(); fflush(stdout); }, 300);
+            if (r.kind == 0) fwrite(r.out.data(), 1, r.out.size(), stdout);
+            else rep().viol(fmt("C19.%s.deep.%s", crash_sig(r).c_str(), mname[A[hist.back()].mode]), args.one, err_tail(r));
+            rep().flush();
+            return 0;
+        }
         Cfg cfg{cu(m, "D"), (unsigned)cu(m, "nthreads"), 4};
         for (auto &c : cfgs) if (c.D == cfg.D && c.nthreads == cfg.nthreads) cfg.base_omp = c.base_omp;
         std::vector<Call> A = alphabet_calls(cfg.D, true);
@@ -267,6 +320,29 @@ int main(int argc, char **argv)
         total_states += (long long)seen.size();
         for (auto &kv : seen)
             rep().sample("state", fmt("\"D\":%llu,\"nthreads\":%u,\"key\":\"%s\",\"reached_by\":\"%s\"", (unsigned long long)cfg.D, cfg.nthreads, kv.first.c_str(), histstr(A, kv.second).c_str()), 6);
+    }
+    {
+        // deep part
+        Cfg cfg{1ULL << 13, 4, 4};
+        std::vector<Call> A = big_calls();
+        int depth = th ? 5 : 4;
+        std::vector<std::vector<int>> H;
+        std::vector<std::vector<int>> level = {{}};
+        for (int d = 1; d <= depth; d++)
+        {
+            std::vector<std::vector<int>> nx;
+            for (auto &h : level) for (int c = 0; c < (int)A.size(); c++) { auto g = h; g.push_back(c); nx.push_back(g); }
+            for (auto &h : nx) H.push_back(h);
+            level = nx;
+        }
+        isolated_for((long)H.size(), args.jobs, 8, [&](long i) { deep_history(cfg, A, H[i]); },
+                     [&](long i, const ChildResult &r) {
+                         rep().viol(fmt("C19.%s.deep.%s", crash_sig(r).c_str(), mname[A[H[i].back()].mode]), fmt("deep=1 D=%llu nthreads=%u hist=%s", (unsigned long long)cfg.D, cfg.nthreads, histstr(A, H[i]).c_str()), err_tail(r));
+                     }, 600);
+        total_states += (long long)H.size();
+        nontriv += (long long)H.size() - (long long)A.size();
+        printf("INFO deep: all %zu histories up to depth %d over %zu large calls (sizes 2^12..2^14), no state merging\n", H.size(), depth, A.size());
+        rep().sample("deep-history", "\"history\":\"extendPol(2^13<-2^12), extendPol(2^13<-2^13), extendPol(2^14<-2^12), extendPol(2^14<-2^13,2 cols,2 blocks): last call compared with a fresh object\"", 1);
     }
     rep().stat("states", total_states);
     rep().stat("bfs_transitions", total_trans);
